@@ -24,6 +24,7 @@ META = {
     "required_counters": ["callbacks_checked", "timing_checked", "tls_runs", "burst_runs"],
     "assumptions": [],
 }
+META["claim"] += " " + 'Also: two segments cut one byte before the end of a large first message (read-ahead would swallow the followers); exact argument types; the documented on_cont_message mode over all histories of length <= 3; slow legal traffic through an HTTP CONNECT proxy configured with a short http_proxy_timeout.'
 
 KINDS = ["text", "binary", "frag2", "frag3", "ping", "pong"]
 CBS = ["on_open", "on_message", "on_data", "on_error", "on_ping", "on_pong", "on_close"]
